@@ -517,7 +517,24 @@ def run_property(prop, tier="quick", seed=0, n_cases=None, replay=None):
     # 3. corpus + generated cases -----------------------------------------------
     corpus = load_corpus(prop.id)
     n = n_cases if n_cases is not None else (prop.quick_cases if tier == "quick" else prop.thorough_cases)
-    gen = [prop.generate(ctx.rng, i, tier) for i in range(n)]
+    gen, gen_crashes = [], []
+    for i in range(n):
+        try:
+            gen.append(prop.generate(ctx.rng, i, tier))
+        except InfraError:
+            raise
+        except Exception as e:
+            # some generators consult the real implementation while building a case (recording random
+            # draws, tracking what is held); an exception raised from /repo code there is an observation
+            # about the implementation, not a harness failure
+            tb = traceback.extract_tb(e.__traceback__)
+            if any(str(REPO) in fr.filename for fr in tb):
+                where = next((f"{Path(fr.filename).name}:{fr.name}" for fr in reversed(tb) if str(REPO) in fr.filename), "")
+                gen_crashes.append(dict(index=i, error=f"{type(e).__name__} {where}: {e}"[:300]))
+                if len(gen_crashes) > 50:
+                    break
+            else:
+                raise
     cases = [c for _, c in corpus] + gen
     results = []
     CH = 4000
@@ -532,6 +549,9 @@ def run_property(prop, tier="quick", seed=0, n_cases=None, replay=None):
         if k is not None:
             nontriv.add(hashlib.sha256(str(k).encode()).hexdigest())
     disagreements = [r for r in results if not r["agree"]]
+    for gc in gen_crashes[:3]:
+        disagreements.append(dict(case={"family": "implementation-raised-during-case-generation", **gc},
+                                  impl=[f"IMPL-EXC {gc['error']}"], model=[], agree=False, variant=None, judge=None, gen_crash=True))
     judged_viol = [(r, classify(r)) for r in results if classify(r)]
     unknown = [r for r, c in judged_viol if c[0] == "violation"]
     known_hits = {}
@@ -552,13 +572,18 @@ def run_property(prop, tier="quick", seed=0, n_cases=None, replay=None):
     # 4. failing-input search after a disagreement --------------------------------
     if disagreements and not unknown:
         budget = prop.search_budget[tier]
-        seeds = [r["case"] for r in disagreements[:10]]
+        seeds = [r["case"] for r in disagreements[:10] if not r.get("gen_crash")]
         srng = random.Random(seed ^ 0x5EA4C4)
         batch = []
-        for k in range(budget):
+        for k in range(budget if seeds else 0):
             base = seeds[k % len(seeds)]
-            batch.append(prop.mutate(base, srng) if k % 3 else prop.generate(srng, k, tier))
-        sres = evaluate(prop, drv, seeds + batch, variants=prop.variants[:1])
+            try:
+                batch.append(prop.mutate(base, srng) if k % 3 else prop.generate(srng, k, tier))
+            except InfraError:
+                raise
+            except Exception:
+                continue   # (a generator that consults a broken implementation; see gen_crashes above)
+        sres = evaluate(prop, drv, seeds + batch, variants=prop.variants[:1]) if seeds else []
         searched = len(sres)
         for r in sres:
             c = classify(r)
@@ -591,24 +616,34 @@ def run_property(prop, tier="quick", seed=0, n_cases=None, replay=None):
         rc = 1
     elif disagreements:
         r = disagreements[0]
+        if r.get("gen_crash"):
+            p = write_replay(prop, "correspondence", dict(
+                property=prop.id, kind="correspondence-broken", case=r["case"],
+                correspondence=f"hv/props/{prop.id.lower()}.py case generation calls into /repo",
+                theorems_no_longer_transferred=prop.theorems, impl_transcript=r["impl"], model_transcript=[],
+                seed=seed, tier=tier,
+                note="The implementation raised while the harness was consulting it to build a case; no input violating the Spec predicate could be produced, so the theorems no longer transfer to the code."))
+            print(f"VIOLATION property={prop.id} replay={p} no-failing-input-found")
+            replay_paths.append(str(p))
+            rc = 1
+        else:
+            def still_dis(c):
+                rr = evaluate(prop, drv, [c])[0]
+                return not rr["agree"]
 
-        def still_dis(c):
-            rr = evaluate(prop, drv, [c])[0]
-            return not rr["agree"]
-
-        case = shrink_case(prop, drv, r["case"], still_dis)
-        rr = evaluate(prop, drv, [case])[0]
-        fd = first_diff(prop.compare_view(case, rr["impl"]), rr["model"] or [])
-        p = write_replay(prop, "correspondence", dict(
-            property=prop.id, kind="correspondence-broken", case=case,
-            correspondence=f"hv/props/{prop.id.lower()}.py family={case.get('family')} vs Lean driver {prop.driver}",
-            theorems_no_longer_transferred=prop.theorems,
-            impl_transcript=rr["impl"], model_transcript=rr["model"], first_difference=fd,
-            searched_inputs=searched, seed=seed, tier=tier,
-            note="Implementation and Lean model disagree on this input; no input violating the Spec predicate was found within the search budget, so the theorems no longer transfer to the code."))
-        print(f"VIOLATION property={prop.id} replay={p} no-failing-input-found")
-        replay_paths.append(str(p))
-        rc = 1
+            case = shrink_case(prop, drv, r["case"], still_dis)
+            rr = evaluate(prop, drv, [case])[0]
+            fd = first_diff(prop.compare_view(case, rr["impl"]), rr["model"] or [])
+            p = write_replay(prop, "correspondence", dict(
+                property=prop.id, kind="correspondence-broken", case=case,
+                correspondence=f"hv/props/{prop.id.lower()}.py family={case.get('family')} vs Lean driver {prop.driver}",
+                theorems_no_longer_transferred=prop.theorems,
+                impl_transcript=rr["impl"], model_transcript=rr["model"], first_difference=fd,
+                searched_inputs=searched, seed=seed, tier=tier,
+                note="Implementation and Lean model disagree on this input; no input violating the Spec predicate was found within the search budget, so the theorems no longer transfer to the code."))
+            print(f"VIOLATION property={prop.id} replay={p} no-failing-input-found")
+            replay_paths.append(str(p))
+            rc = 1
 
     samples = []
     seen_f = set()
